@@ -4,6 +4,7 @@ replays refutations on the real code, writes evidence, applies known findings, s
 Exit codes: 0 held / 1 violation (VIOLATION line) / 2 undecided (no verdict) / 3 checker error.
 """
 import argparse
+import re
 import glob
 import hashlib
 import importlib
@@ -111,6 +112,9 @@ def crosscheck(I, c, r, max_paths):
         out['na_reasons'][why[:110]] = out['na_reasons'].get(why[:110], 0) + n
     inputs_of = r.obligations[0].inputs if r.obligations else {}
     for f in pure:
+        if any(xcheck.has_uninterpreted(t) for t in f['pc']):
+            na('path decided by an uninterpreted library function')
+            continue
         s = z3.Solver()
         s.set('timeout', 10000)
         for t in f['pc']:
@@ -219,6 +223,55 @@ def matches_known(pid, fnres, ob, known):
 XCHECK_PATHS = 0
 
 
+def mutant_selftest(pid, jobs):
+    """Thorough tier: every confirmed seeded change kept under /verif/seeded for this property is applied to a scratch
+    COPY of the current tree (outside /repo and /verif, removed afterwards) and the quick check is run on the copy:
+    it must report a violation.  The outcome is recorded in the evidence; it never changes this run's exit code
+    (the exit code speaks about /repo only)."""
+    import shutil
+    import tempfile
+    out = []
+    sdir = os.path.join(VERIF, 'seeded')
+    if not os.path.isdir(sdir):
+        return out
+    for name in sorted(os.listdir(sdir)):
+        mp = os.path.join(sdir, name, 'meta.json')
+        if not os.path.exists(mp):
+            continue
+        meta = json.load(open(mp))
+        if meta.get('superseded_by') or (meta.get('property') != pid and pid not in meta.get('also_checks', [])):
+            continue
+        if meta.get('property') != pid and pid in meta.get('also_checks', []):
+            pass
+        elif meta.get('also_checks') and meta.get('note', '').find('no longer') >= 0 and meta.get('property') == pid:
+            out.append({'seed': name, 'status': 'not a violation of this property on the current tree (see its meta.json)'})
+            continue
+        scratch = tempfile.mkdtemp(prefix='pyvc_mutant_')
+        try:
+            tree = os.path.join(scratch, 'tree')
+            shutil.copytree(REPO, tree, ignore=shutil.ignore_patterns('.git', '__pycache__', '*.egg-info', '.pytest_cache'))
+            patch = os.path.join(sdir, name, 'patch.diff')
+            ap = subprocess.run(['git', 'apply', '--unsafe-paths', '--directory=' + tree, patch], cwd='/', capture_output=True, text=True)
+            if ap.returncode != 0:
+                ap = subprocess.run(['patch', '-p1', '-s', '-i', patch], cwd=tree, capture_output=True, text=True)
+            if ap.returncode != 0:
+                out.append({'seed': name, 'status': 'patch does not apply to the current tree'})
+                continue
+            env = dict(os.environ, PYVC_REPO=tree, PYVC_OUT=os.path.join(scratch, 'out'), PYVC_XCHECK='0', PYVC_SELFTEST='0')
+            t0 = time.time()
+            p = subprocess.run([sys.executable, '-m', 'pyvc.runner', pid, '--tier', 'quick', '--jobs', str(jobs)], cwd=VERIF, env=env,
+                               capture_output=True, text=True, timeout=3600)
+            viol = [l for l in p.stdout.splitlines() if l.startswith('VIOLATION')]
+            out.append({'seed': name, 'status': 'detected' if p.returncode == 1 and viol else 'NOT detected (exit %d)' % p.returncode,
+                        'exit': p.returncode, 'obligations_failed': [re.sub(r'.*obligation=', '', v)[:160] for v in viol[:4]],
+                        'wall_s': round(time.time() - t0, 1)})
+        except Exception as e:
+            out.append({'seed': name, 'status': 'self-test failed to run: %r' % (e,)})
+        finally:
+            shutil.rmtree(scratch, ignore_errors=True)
+    return out
+
+
 def main(argv=None):
     ap = argparse.ArgumentParser()
     ap.add_argument('property')
@@ -300,6 +353,9 @@ def main(argv=None):
             extra.append(fn(tier, seed))
         except Exception:
             extra.append({'name': getattr(fn, '__name__', 'extra'), 'status': 'error', 'message': traceback.format_exc()})
+    selftest = None
+    if tier == 'thorough' and os.environ.get('PYVC_SELFTEST', '1') != '0' and not a.only:
+        selftest = mutant_selftest(pid, a.jobs)
     known = load_known()
     n_ob = n_dis = 0
     refuted, undecided, errors, known_hits = [], [], [], []
@@ -439,6 +495,7 @@ def main(argv=None):
             'known_findings_hit': sorted(printed),
             'undecided': undecided,
             'bounded': [{k: v for k, v in b.items() if k != 'violations'} for b in bounded],
+            'seeded_changes_selftest': selftest if selftest is not None else 'not run in this tier',
             'cpython_witness_crosscheck': xc_tot if XCHECK_PATHS else 'not run in this tier',
             'explanation': 'obligations generated from the current /repo source text by pyvc (symbolic execution of the '
                            'real function bodies against sidecar contracts) and discharged by z3; bounded stand-ins are '
@@ -454,6 +511,10 @@ def main(argv=None):
     nb = sum(b_.get('obligations', 0) for b_ in bounded)
     print('%s tier=%s contracts=%d obligations=%d discharged=%d bounded-obligations=%d refuted=%d known=%d undecided=%d wall=%.1fs exit=%d' % (
         pid, tier, len(sel), n_ob, n_dis, nb, len(violations), len(printed), len(undecided), wall, exit_code))
+    if selftest is not None:
+        det = sum(1 for x in selftest if x['status'] == 'detected')
+        print('%s seeded-changes-selftest: %d of %d detected%s' % (pid, det, len(selftest), ''.join(
+            '; %s: %s' % (x['seed'], x['status']) for x in selftest if x['status'] != 'detected')))
     if XCHECK_PATHS:
         print('%s cpython-witness-crosscheck: pure-paths=%d replayed=%d final-states-agree=%d no-native-rendering=%d disagreements=%d' % (
             pid, xc_tot['pure_paths'], xc_tot['paths_replayed_natively'], xc_tot['final_states_agree'], xc_tot['without_native_rendering'], len(xc_tot['disagreements'])))
